@@ -655,6 +655,10 @@ def transmission_map(chk, _):
     finally:
         mod.sc = saved
     rets = [p for p in paths if p.kind == 'return']
+    for p in paths:
+        if p.kind != 'return' and isinstance(p.value, (AttributeError, TypeError, KeyError, IndexError)):
+            # the function asked its stand-in operands (a list of wavelength tokens, opaque weights) for something they do not have
+            raise core.Unsupported(f'the stand-ins of this contract do not cover this shape of the code: {p.value!r}'[:200])
     chk.decided(f'{pre}/no-raise', bool(paths) and len(rets) == len(paths), detail='; '.join(repr(p.value)[:100] for p in paths if p.kind != 'return'))
     for j, p in enumerate(rets):
         if p.value[0] != 'concat' or 'direction' not in seen:
